@@ -61,6 +61,9 @@ def apply_op(ms, op):
     wr = {8: ms.write_byte, 16: ms.write_halfword, 32: ms.write_word}
     ty = {8: fixedint.UInt8, 16: fixedint.UInt16, 32: fixedint.UInt32}
     try:
+        if op[0] == 2:
+            ms.reset()
+            return []
         if op[0] == 0:
             return [0, int(rd[op[1]](op[2], bool(op[3])))]
         wr[op[1]](op[2], ty[op[1]](op[3]), bool(op[4]))
@@ -142,6 +145,19 @@ def run_history(case, model, with_model=True):
         r = apply_op(ms, op)
         pen = pm.cycles - cyc0
         itrace.append([r, pen, directory(ms), lower_of(mem)])
+        if op[0] == 2:
+            # reset(): everything stored is dropped, the statistics counters are kept
+            classes.add("reset")
+            ref = RefFlat([])
+            keep = (rc.hits, rc.accesses, rc.last)
+            rc = RefCache(cfg)
+            rc.hits, rc.accesses, rc.last = keep
+            al, _ = logical_bytes(ms, mem)
+            if al or mem.memory_file:
+                out["C12"].append(("violation", f"op {k}: after reset() the memory system still holds data {sorted(al.items())[:4]}"))
+            if [ms.hits, ms.accesses] != [rc.hits, rc.accesses]:
+                out["C09"].append(("violation", f"op {k}: reset() changed the data-cache counters"))
+            continue
         width = op[1] // 8
         off = op[2] % 4
         cross = off + width > 4
@@ -261,6 +277,7 @@ def gen_history(rng, cfg, n, direct_p=0.03, bad_p=0.08):
     bases = [DATA + k * stride for k in range(cfg[2] + 2)] + [DATA + 4 * rng.randrange(0, 16)]
     hot = [rng.choice(bases) + 4 * rng.randrange(0, 1 << bb) for _ in range(4)]
     ops = []
+    reset_at = rng.randrange(2, n + 2) if rng.random() < 0.15 else None
     # parser-style preloads: direct writes happen only before the first cached access
     for _ in range(rng.randrange(0, 4) if rng.random() < direct_p * 10 else 0):
         nb = rng.choice([8, 16, 32])
@@ -280,6 +297,8 @@ def gen_history(rng, cfg, n, direct_p=0.03, bad_p=0.08):
             ops.append([0, nb, a, 0 if rng.random() < 0.2 else 1])
         else:
             ops.append([1, nb, a, rng.getrandbits(nb), 0])
+        if reset_at is not None and len(ops) == reset_at:
+            ops.append([2])
     return ops
 
 
@@ -307,5 +326,5 @@ def describe(case):
     cfg = case["cfg"]
     return {"cache": f"index_bits={cfg[0]} block_bits={cfg[1]} assoc={cfg[2]} {'plru' if cfg[3] else 'lru'} "
                      f"{'write-through' if cfg[4] else 'write-back'} penalty={cfg[5]}",
-            "ops": [(f"read{op[1]}({op[2]:#x}, counted={bool(op[3])})" if op[0] == 0 else
+            "ops": ["reset()" if op[0] == 2 else (f"read{op[1]}({op[2]:#x}, counted={bool(op[3])})" if op[0] == 0 else
                      f"write{op[1]}({op[2]:#x}, {op[3]:#x}, direct={bool(op[4])})") for op in case["ops"]]}
